@@ -30,7 +30,8 @@ OBLIGATIONS = [
      "statement": "compaction changes nothing visible, leaves no expired key in memory, and the new snapshot alone holds exactly the live entries"},
     {"id": "C12_gen_locks", "theorem": "Iora.C12.gen_locks_ok", "kind": "proved",
      "statement": "Gen obligation (lock scopes extracted from kvstore.hpp): get() looks the key up and refills the cache inside one guard on _mutex, its fast path holds _cacheMutex only, "
-                  "every writer changes _cache/_kv/_expiry while holding _mutex exclusively, every access to _cache holds _cacheMutex (writes exclusively)"},
+                  "every writer changes _cache/_kv/_expiry while holding _mutex exclusively, every access to _cache holds _cacheMutex (writes exclusively), "
+                  "every READ of _kv/_expiry outside the constructor-only functions (exists, ttl, size, getBatch, keys, ...) holds _mutex (readersHoldStoreLock)"},
     {"id": "C12_M6_race", "theorem": "Iora.C12.M6_get_miss_race", "kind": "proved",
      "statement": "for the extracted lock scopes: get() on a cache miss interleaved with any writer of the same key (set, set+ttl, setBatch, remove, expireAt, persist, clear, eviction), "
                   "for EVERY schedule of their lock / read / write steps stopped anywhere, leaves the key's cache entry absent or equal to the stored entry (value and expiry) whenever the writer is not "
